@@ -90,13 +90,19 @@ def run(ctx):
         runs.append(["mt", [1, 2, 4, 16][r % 4], ctx.seed * 100 + r, 3000, [1, 2, 3, 0][(r // 4) % 4], 1 + r % 3])
     ctx.rules.append("fnode-mt (oracle only): 1-3 threads feed a function_node of concurrency 1/2/3/unlimited that broadcasts to 1-3 serial/unlimited successors: limit respected, each message "
                      "processed once, each output delivered once to every successor, wait_for_all returns idle")
+    for r in range(ctx.scale(12, 120)):
+        runs.append(["mtmix", [1, 2, 4, 16][r % 4], ctx.seed * 100 + r, 400, r % 3, (r // 3) % 2])
+    ctx.rules.append("fnode-mtmix (oracle only): a function_node broadcasts to a queueing serial, an unlimited and a REJECTING successor (rejecting serial function_node or a full limiter_node) connected "
+                     "first / in the middle / last: the queueing and unlimited successors receive every output exactly once whatever the rejecting one does")
     for args in runs:
         rc, lines2, err = ctx.run_driver(exe, args, timeout=300)
-        ctx.count(("fnode-mt", tuple(args)), True, "fnode-mt limit=%d" % args[4])
+        ctx.count(("fnode-mt", tuple(args)), True, "fnode-%s" % args[0])
         t = (lines2 or ["no output"])[-1].split()
-        if rc != 0 or len(t) < 8 or any(x != "0" for x in t[1::2]):
+        if rc != 0 or len(t) < 6 or any(x != "0" for x in t[1::2]):
             bad += 1
-            ctx.add(Finding("violation", "fnode-mt", "function_node(limit %d) -> %d successors, %d worker threads, seed %d: %s rc=%s" % (args[4], args[5], args[1], args[2], " ".join(t), rc), {"tie": "fnode-mt", "args": args}))
+            what = ("function_node(limit %d) -> %d successors" % (args[4], args[5])) if args[0] == "mt" else (
+                "function_node broadcasting to [queueing, unlimited] plus a %s connected %s" % (["rejecting serial function_node", "full limiter_node"][args[5]], ["first", "in the middle", "last"][args[4]]))
+            ctx.add(Finding("violation", "fnode-" + args[0], "%s, %d worker threads, seed %d: %s rc=%s" % (what, args[1], args[2], " ".join(t), rc), {"tie": "fnode-mt", "args": args}))
             if bad >= 3:
                 break
     ctx.ties.append({"name": "fnode-mt (oracle only)", "cases": len(runs), "disagreements": bad})
